@@ -149,6 +149,11 @@ pub(crate) struct CoreInner {
 	/// write the same table file at the same time.
 	flush_lock: parking_lot::Mutex<()>,
 
+	/// Held for the duration of a compaction round. A compaction does not hold the manifest lock
+	/// while it merges, so a restore taking this lock (and `flush_lock`) is what keeps a round
+	/// started on the old tables from installing its result into the restored manifest.
+	compaction_lock: parking_lot::Mutex<()>,
+
 	/// Visible sequence number - the highest sequence number that is visible to readers.
 	/// Shared with CommitPipeline for coordinated updates.
 	pub(crate) visible_seq_num: Arc<AtomicU64>,
@@ -220,6 +225,7 @@ impl CoreInner {
 			lockfile: Mutex::new(lockfile),
 			error_handler: Arc::new(BackgroundErrorHandler::new()),
 			flush_lock: parking_lot::Mutex::new(()),
+			compaction_lock: parking_lot::Mutex::new(()),
 			visible_seq_num,
 		})
 	}
@@ -906,6 +912,8 @@ impl CompactionOperations for CoreInner {
 	/// - Removes deleted entries to reclaim space
 	/// - Maintains the level invariants (size ratios and key ranges)
 	fn compact(&self, strategy: Arc<dyn CompactionStrategy>) -> Result<()> {
+		let _compacting = self.compaction_lock.lock();
+
 		// Create compaction options from the current LSM tree state
 		let options = CompactionOptions::from(self);
 
@@ -1635,6 +1643,13 @@ impl Tree {
 		// apply phase) will finish against the soon-to-be-replaced memtable —
 		// their data is intentionally discarded by the restore.
 		let _write_guard = self.core.commit_pipeline.lock_writes();
+
+		// Likewise the background work: wait for a running flush or compaction round to finish
+		// and keep new ones out. A round that started on the tables of the timeline being
+		// discarded would otherwise install its output into the restored manifest and delete
+		// files of the restored store whose ids match its inputs.
+		let _flush_guard = self.core.inner.flush_lock.lock();
+		let _compaction_guard = self.core.inner.compaction_lock.lock();
 
 		// Step 1: Restore files from checkpoint
 		let checkpoint = DatabaseCheckpoint::new(Arc::clone(&self.core.inner));
